@@ -48,6 +48,13 @@ def header(patch_path):
     return h
 
 
+def drop_variant_facts(repo_dir):
+    """Variant facts are single-use: remove them (never the entry of /repo's own tree)."""
+    h = extract.source_hash(repo_dir)[0]
+    if h != extract.source_hash("/repo")[0]:
+        shutil.rmtree(os.path.join(extract.CACHE, "facts", h), ignore_errors=True)
+
+
 def violations_in(repo_dir, mod, prop, config="prod"):
     """Run the property's rules on a checkout; return {violation key: [detail]}."""
     fdir, _info = extract.facts_for(repo_dir, config)
@@ -84,6 +91,7 @@ def run_controls(prop, mod, chk, seed=0):
                 except extract.ExtractError as e:
                     skipped.append({"control": name, "why": "variant does not build: %s" % str(e)[-300:]})
                     continue
+                drop_variant_facts(dest)
                 exp = h.get("expect", "")
                 hits = [k for k in v if exp in k]
                 if not hits:
